@@ -250,6 +250,7 @@ struct Rw<'a> {
     boolor: bool,
     fold_loops: bool,
     for_range: bool,
+    for_iter: bool,
     subst: Vec<(String, String)>,
     sections: &'a BTreeMap<String, String>,
     rules: RefCell<BTreeMap<String, usize>>,
@@ -782,6 +783,28 @@ impl<'a, 'b, 'ast> Visit<'ast> for Collector<'a, 'b> {
                     self.edits.push((sp.start, sp.end, text));
                 }
             }
+            Expr::ForLoop(w) if rw.for_iter => {
+                // R18 (option for_iter=1): `for P in E { B }` over a non-range iterator -> the desugaring the language defines,
+                //   `{ let mut it = E.into_iter(); loop { match it.next() { Some(P) => { B } None => { break; } } } }`
+                // (the overlay supplies the iterator model: into_iter / next with their contracts, and the loop contract incl. decreases)
+                self.record_header(e, &w.body);
+                let idx = rw.loop_idx.get();
+                rw.loop_idx.set(idx + 1);
+                let it = rw.render_expr(&w.expr);
+                let pat = &rw.src[w.pat.span().byte_range()];
+                let inv = rw.section(&format!("loop {idx}")).map(|t| mark(t)).unwrap_or_default();
+                let mut c = Collector { rw, edits: vec![] };
+                for st in &w.body.stmts { c.visit_stmt(st); }
+                let br = w.body.span().byte_range();
+                let inner = apply_edits(rw.src, (br.start + 1)..(br.end - 1), c.edits);
+                let begin = rw.section(&format!("loop {idx} begin")).map(|t| format!("proof {{ //@p\n{}\n}} //@p\n", mark(t))).unwrap_or_default();
+                let end = rw.section(&format!("loop {idx} end")).map(|t| format!("proof {{ //@p\n{}\n}} //@p\n", mark(t))).unwrap_or_default();
+                let after = rw.section(&format!("loop {idx} after")).map(|t| format!("proof {{ //@p\n{}\n}} //@p\n", mark(t))).unwrap_or_default();
+                let text = format!("{{ let mut __it{idx} = ({it}).into_iter();\nloop\n{inv}\n{{ match __it{idx}.next() {{ Some({pat}) => {{\n{begin}{inner}\n{end} }} None => {{ break; }} }} }}\n{after} }}");
+                rw.count("R18");
+                let sp = e.span().byte_range();
+                self.edits.push((sp.start, sp.end, text));
+            }
             Expr::ForLoop(w) => {
                 self.record_header(e, &w.body);
                 self.loop_anchor(&w.body);
@@ -887,7 +910,7 @@ fn extract_body(repo: &Path, source: &str, d: &Directive, variant: &str) -> Resu
     let subst: Vec<(String, String)> = d
         .opts
         .get("subst")
-        .map(|s| s.split(',').filter_map(|kv| kv.split_once(':').map(|(a, b)| (a.to_string(), b.to_string()))).collect())
+        .map(|s| split_top(s).into_iter().filter_map(|kv| kv.split_once(':').map(|(a, b)| (a.to_string(), b.to_string()))).collect())
         .unwrap_or_default();
     let rw = Rw {
         src: &src,
@@ -901,6 +924,7 @@ fn extract_body(repo: &Path, source: &str, d: &Directive, variant: &str) -> Resu
         boolor: d.opts.get("boolor").map(|v| v == "1").unwrap_or(false),
         fold_loops: d.opts.get("fold_loops").map(|v| v == "1").unwrap_or(false),
         for_range: d.opts.get("for_range").map(|v| v == "1").unwrap_or(false),
+        for_iter: d.opts.get("for_iter").map(|v| v == "1").unwrap_or(false),
         subst,
         sections: &d.sections,
         rules: RefCell::new(rules),
@@ -1002,6 +1026,20 @@ fn extract_body(repo: &Path, source: &str, d: &Directive, variant: &str) -> Resu
 
 // ---------------------------------------------------------------- type / const items (R7)
 
+/// split at commas that are not inside `<...>` (so `AHashMap<X,R>:AMap,R:ER` has two entries)
+fn split_top(s: &str) -> Vec<String> {
+    let (mut out, mut cur, mut depth) = (vec![], String::new(), 0i32);
+    for ch in s.chars() {
+        match ch {
+            '<' => { depth += 1; cur.push(ch); }
+            '>' => { depth -= 1; cur.push(ch); }
+            ',' if depth == 0 => { out.push(std::mem::take(&mut cur)); }
+            _ => cur.push(ch),
+        }
+    }
+    if !cur.is_empty() { out.push(cur); }
+    out
+}
 fn subst_type(ty: &syn::Type, subst: &[(String, String)]) -> String {
     // token text without spaces; generic applications can be substituted as a whole ("Mat<R>:Mat")
     let mut t: String = ty.to_token_stream().to_string().split_whitespace().collect();
@@ -1037,7 +1075,7 @@ fn extract_item(repo: &Path, source: &str, sel: &str, opts: &BTreeMap<String, St
     let file = syn::parse_file(&src).map_err(|e| Fail { kind: "anchor-lost", msg: format!("{source}: parse error {e}") })?;
     let subst: Vec<(String, String)> = opts
         .get("subst")
-        .map(|s| s.split(',').filter_map(|kv| kv.split_once(':').map(|(a, b)| (a.to_string(), b.to_string()))).collect())
+        .map(|s| split_top(s).into_iter().filter_map(|kv| kv.split_once(':').map(|(a, b)| (a.to_string(), b.to_string()))).collect())
         .unwrap_or_default();
     let parts: Vec<&str> = sel.split('/').collect();
     fn all_items<'a>(items: &'a [Item], out: &mut Vec<&'a Item>) {
